@@ -20,6 +20,11 @@ def mk_cfg(ctx, variant="main"):
         # a board without a battery-backed clock: the kernel publishes boot time 0 until the clock is set
         return pm.Cfg(seed=ctx.seed, slots=("A",), max_objs=2, actions=(), clock=True, queries=(), numeric=True,
                       use_iter=False, use_exit=False, btime0=0)
+    if variant == "mid":
+        # one process-table event (exit, reap+reuse, reuse by a process that is already a zombie ...) lands INSIDE an is_running()
+        # call, before its k-th kernel access: the answer must be the one of the moment before or of the moment after
+        return pm.Cfg(seed=ctx.seed, slots=("A",), max_objs=2, actions=(), clock=False, queries=(), numeric=True,
+                      use_iter=False, use_exit=True, mid=5)
     if variant == "deny":
         # objects built while /proc/<pid>/stat was unreadable (creation time unknown), permission restored later: whatever
         # psutil decides about their equality, a mere query (create_time(), is_running() ...) must not change it afterwards
@@ -48,6 +53,15 @@ def run(ctx):
     res["violations"] = res["violations"] + r3["violations"]
     res["states"] += r3["states"]
     res["transitions"] += r3["transitions"]
+    _CFG = mk_cfg(ctx, "mid")
+    ctx.close()
+    r4 = bfs(run_h, (7 if ctx.thorough else 6) - (1 if ctx.alt else 0), ctx)
+    for v in r4["violations"]:
+        v["case"]["variant"] = "mid"
+        v["case"]["part"] = "H"
+    res["violations"] = res["violations"] + r4["violations"]
+    res["states"] += r4["states"]
+    res["transitions"] += r4["transitions"]
     _CFG = mk_cfg(ctx, "deny")
     ctx.close()
     r2 = bfs(run_h, (8 if ctx.thorough else 7) - (2 if ctx.alt else 0), ctx)
@@ -57,6 +71,7 @@ def run(ctx):
     res["violations"] = res["violations"] + r2["violations"]
     res["states"] += r2["states"]
     res["transitions"] += r2["transitions"]
+    res["mid_variant"] = {"states": r4["states"], "transitions": r4["transitions"], "depth": r4["max_depth"], "outcomes": r4["labels"]}
     res["deny_variant"] = {"states": r2["states"], "transitions": r2["transitions"], "depth": r2["max_depth"]}
     from vf.checks import c02s
     ctx.close()
@@ -64,7 +79,7 @@ def run(ctx):
     res["violations"] = res["violations"] + sres["violations"]
     res["states"] += sres["coverage"]["executions"]
     res["transitions"] += sres["coverage"]["transitions"]
-    cov = {"schedules": sres["coverage"], "deny_variant": res["deny_variant"],
+    cov = {"schedules": sres["coverage"], "deny_variant": res["deny_variant"], "mid_call_event_variant": res["mid_variant"],
         "states": res["states"], "transitions": res["transitions"],
         "traces_validated_against_impl": res["transitions"],
         "max_depth": res["max_depth"], "new_states_per_level": res["new_states_per_level"],
@@ -78,9 +93,9 @@ def run(ctx):
                   "hash never changes; is_running(o) <=> o's incarnation is in the table (running or zombie)",
     }
     return {"coverage": cov, "violations": res["violations"],
-            "assumptions": ["kernel events happen between API calls",
+            "assumptions": ["kernel events happen between API calls (and, in the mid-call variant, ONE of them inside an is_running() call)",
                             "a recycled pid's new owner starts at a later jiffy than the previous owner (psutil's documented assumption)",
-                            "clock steps of +-1 s; 100 ticks/s"]}
+                            "clock steps of +-1 s; 100 ticks/s (1024 in the second configuration)"]}
 
 
 def replay(ctx, case):
